@@ -55,9 +55,9 @@ MC_MODELS = {
     # the length arithmetic of the decoder with octet values forgotten: TLC for all inputs up to 20 octets ...
     "len_tlc": {"module": "../LenMachine.tla", "cfg": "MCLenMachine.cfg"},
     # ... and Apalache: Safe (every request fits, nothing underflows) is INDUCTIVE, for inputs of any length
-    "len_base": {"module": "LenMachine.tla", "thorough_only": True, "timeout": 1800,
+    "len_base": {"module": "LenMachine.tla", "timeout": 1800,
                  "apalache": ["--cinit=ConstInit", "--init=Init", "--next=Next", "--inv=IndInv", "--length=0"]},
-    "len_step": {"module": "LenMachine.tla", "thorough_only": True, "timeout": 1800,
+    "len_step": {"module": "LenMachine.tla", "timeout": 1800,
                  "apalache": ["--cinit=ConstInit", "--init=IndInit", "--next=Next", "--inv=IndInv", "--length=1"]},
 }
 
@@ -75,7 +75,7 @@ COMMON_ASSUMPTIONS = [
 
 PROPS = {
     "C01": {
-        "mc": DEC_MODELS + ["len_tlc"], "gen": ["decode", "avps", "payload", "decode_big"],
+        "mc": DEC_MODELS + ["len_tlc", "len_base", "len_step"], "gen": ["decode", "avps", "payload", "decode_big"],
         "rule": "TLC-explored boundary grammars of the decoder machine (every run exported and replayed) + seeded "
                 "random / mutated / raw inputs through both entry points, the bare AVP list reader and the per-type "
                 "readers, in a dev build (overflow checks, debug assertions) and a release build, under catch_unwind "
